@@ -5,6 +5,7 @@ package main
 // another subscribed controller receives one EVENT per change, with the values in the order of the changes.
 
 import (
+	"bytes"
 	"encoding/json"
 	"fmt"
 	"strings"
@@ -63,6 +64,41 @@ func c10Entries(c *Ctx) {
 			if m, err := listener.Do("PUT", "/characteristics", "application/hap+json", []byte(sub)); err != nil || m.Status != 204 {
 				c.Violate("verified reference controller cannot subscribe", id, nil, "204", fmt.Sprint(err, m))
 				return
+			}
+			// one request with several entries, one of which asks for events on a characteristic that does not permit them (the
+			// accessory's name): that entry is refused, the others — a subscription and a write — take effect all the same
+			third := verified()
+			if third != nil {
+				defer third.Close()
+				hueID := lb.Lightbulb.Hue.ID
+				mixed := fmt.Sprintf(`{"characteristics":[{"aid":%d,"iid":%d,"ev":true},{"aid":%d,"iid":%d,"ev":true},{"aid":%d,"iid":%d,"value":%d}]}`,
+					aid, lb.Info.Name.ID, aid, hueID, aid, lb.Lightbulb.Saturation.ID, 37)
+				m, err := third.Do("PUT", "/characteristics", "application/hap+json", []byte(mixed))
+				in := map[string]interface{}{"request": mixed, "first_entry": "asks for events on the name characteristic (no event permission): refused"}
+				if err != nil || m == nil {
+					c.Violate("request on an open connection fails", id, in, "answer", fmt.Sprint(err))
+					return
+				}
+				if got := lb.Lightbulb.Saturation.GetValue(); got != 37 {
+					c.Violate("an entry of a PUT request is dropped because an earlier entry of the same request was refused (its write is not applied)", id, in, "saturation 37", fmt.Sprint(got))
+					return
+				}
+				lb.Lightbulb.Hue.SetValue(123)
+				for k := 0; k < 2; k++ {
+					third.Do("GET", fmt.Sprintf("/characteristics?id=%d.%d", aid, iid), "", nil)
+				}
+				n := 0
+				for _, e := range third.Events {
+					if bytes.Contains(e.Body, []byte(fmt.Sprintf(`"iid":%d`, hueID))) {
+						n++
+					}
+				}
+				third.Events = nil
+				if n != 1 {
+					c.Violate("an entry of a PUT request is dropped because an earlier entry of the same request was refused (its subscription does not take effect)", id, in, "1 event for the next change of hue", fmt.Sprint(n))
+					return
+				}
+				c.Count(id+"/mixed", true, "stream:entries", "entries:after-refused-entry")
 			}
 			last := lb.Lightbulb.Brightness.GetValue()
 			for round := 0; round < 6; round++ {
